@@ -389,7 +389,30 @@ pub fn c06(a: &Args) {
     for cs in &caps {
         sink.emit(cs);
     }
-    let n_rnd = n_rnd + caps.len() as u64;
+    // the last bytes of the image block are marker bytes of the container (0x1A = DOS end of file, in front of a SAUCE record;
+    // 0x00; 0xFF): last cell with that character, that attribute byte, or both, ending each type of run, with and without SAUCE
+    let mut n_end = 0;
+    for &mark in &[0x1Au32, 0x00, 0xFF] {
+        for shape in 0..6 {
+            for (w, h) in [(1i32, 1i32), (2, 1), (5, 2), (80, 2)] {
+                for sauce in [true, false] {
+                    let (mfg, mbg) = (mark & 0x0F, (mark >> 4) & 0x0F);
+                    let other = pack(66, 7, 0, 0, 0);
+                    let last = match shape % 3 { 0 => pack(mark, 7, 0, 0, 0), 1 => pack(65, mfg, mbg, 0, 0), _ => pack(mark, mfg, mbg, 0, 0) };
+                    let mut cells = vec![other; (w * h) as usize];
+                    let n = cells.len();
+                    cells[n - 1] = last;
+                    // shapes 3..5: the cell before the last one shares the character / the attribute / both (the last cell ends a run)
+                    if shape >= 3 && n >= 2 {
+                        cells[n - 2] = match shape { 3 => pack(last & 0xFF, 7, 4, 0, 0), 4 => pack(67, (last >> 8) & 0x0F, (last >> 12) & 0x0F, 0, 0), _ => last };
+                    }
+                    sink.emit(&Case { k: "rnd", w, h, ice: true, cells, sauce, ml: true });
+                    n_end += 1;
+                }
+            }
+        }
+    }
+    let n_rnd = n_rnd + caps.len() as u64 + n_end;
     for o in sink.outs.iter_mut() { o.flush(); }
     let summary = json!({"classes":classes,"buffers":sink.id,"exhaustive_buffers":exh_buffers,"random_buffers":n_rnd,"rows":sink.rows,
                          "params":{"full3":full3,"canon3":canon3,"stride6":stride6,"stride7":stride7,"full2":full2,"rows_per_buffer":maxh}});
